@@ -51,6 +51,27 @@ CHECKS["C09"] = dict(
    note="sequential calls; dyadic load/CPU readings (exact in f32/f64); any tripping rule may be reported; bounded scope for the exhaustive part",
    technique="TLA+ spec Entry.tla (system part); TLC model checking; TLC-generated behaviours replayed into the code; TLC trace validation of recorded executions",
    ref="DESIGN.md §6 C09")
+CHECKS["C10"] = dict(
+   text="RuleManager.tla specifies, for the five families, what load-all / load-for-resource / append / clear must leave reported and enforced (given vs active rules, rule equality ignoring ids, validity per family, 'unchanged' for identical reloads, an append keeps every active rule); TLC model-checks it over a pool of valid, invalid and duplicate rules; every behaviour of the bounded model and long random operation sequences are executed on the real managers; after every call TLC validates the return value, get_rules and get_rules_of_resource and, for flow and isolation, an enforcement probe on an idle resource",
+   note="rules handed to load_rules_of_resource carry that resource's name; multiplicity of a rule given under several ids is free; bounded scope for the exhaustive part",
+   technique="TLA+ spec RuleManager.tla; TLC model checking; TLC-generated behaviours replayed into the code; TLC trace validation of recorded executions",
+   ref="DESIGN.md §6 C10")
+CHECKS["C13"] = dict(
+   text="SlotChain.tla states the contract as a predicate over (chain shape, observed call log, build result, delivered error, exit log); TLC checks that every run of a reference chain over the whole bounded case space satisfies it, enumerates all chain shapes (0..2 slots of each kind, equal and distinct order values, every pass/wait/block assignment; 0..3 in thorough) which the harness builds from recording slots and runs through EntryBuilder::with_slot_chain + exit, plus random chains with up to 4 slots of each kind; TLC decides for each observed log whether it is an allowed one",
+   note="ties in order value and the choice among several blocking errors are free; exit once",
+   technique="TLA+ spec SlotChain.tla; TLC enumeration of the case space replayed into the code; TLC validation of the observed call logs",
+   ref="DESIGN.md §6 C13")
+CHECKS["C17"] = dict(
+   category="fault_enumeration",
+   text="The complete grid of (sample_count_total, interval_ms_total, sample_count, interval_ms) incl. zero, non-dividing and non-tiling values, given by entity and by YAML text, is run with one fresh process per case: initialise, touch one resource from the initialising thread and one from a thread spawned afterwards, read both nodes' geometry; TLC validates every case against Config.tla (accepted iff the default window can be served by the global array; accepted => geometry as configured on every thread; no panic)",
+   note="finite grid enumerated completely; geometry read through the guarded accessor",
+   technique="TLA+ spec Config.tla (acceptance predicate + geometry clause); exhaustive case enumeration on the real code; TLC validation of every case",
+   ref="DESIGN.md §6 C17")
+CHECKS["C20"] = dict(
+   text="Tower.tla: admission by an isolation rule of threshold T, inner service called exactly once iff admitted, fallback / error for rejected requests, admission released when the inner call finishes with a response or an error; TLC model-checks it, all outcome sequences (ready/pending x ok/err) of length <= 5 x T x fallback x role are replayed over the real SentinelService with a scripted inner service polled by hand, plus random sequences with dropped futures; TLC validates inner-call counts, results and the in-flight counts of the resource and the inbound node after every request",
+   note="a future dropped before completion is explored and reported only; middleware/tonic cannot be built offline",
+   technique="TLA+ spec Tower.tla; TLC model checking; TLC-generated behaviours replayed into the code; TLC trace validation",
+   ref="DESIGN.md §6 C20")
 NOT_APPLICABLE = {}
 
 def main():
